@@ -350,6 +350,75 @@ fn lp_round_trip(post: &Ledger, wk: &Pubkey, salt: u64, idx: usize, cov: &mut Co
     out
 }
 
+/// Solvency under integer-limit liquidity amounts, on copies: right after a liquidity instruction landed, the same
+/// caller tries deposits whose exact cost sits just above 2^64 / 2^128, deposits of 2^127 and more, and withdrawals
+/// of 2^128 - x. A correct program refuses them; if one goes through, the pool must still cover every claim.
+fn integer_limit_probe(v: &crate::sim::IxView, salt: u64, idx: usize, cov: &mut Coverage) -> Vec<Violation> {
+    let mut out = Vec::new();
+    let Some(c) = crate::wpix::decode(v.ix) else { return out };
+    let name = c.name();
+    if !matches!(name, "increase_liquidity" | "increase_liquidity_v2" | "decrease_liquidity" | "decrease_liquidity_v2") {
+        return out;
+    }
+    let wk = c.a("whirlpool");
+    let (Some(pool), Some(pos)) = (v.post.data(&wk).and_then(decode::pool), v.post.data(&c.a("position")).and_then(decode::position)) else { return out };
+    if !is_plain_pool(v.post, &pool) {
+        return out;
+    }
+    let v2 = name.ends_with("v2");
+    let x = 1 + (salt >> 8) % 1_000_000;
+    let mut tries: Vec<(&str, u128, bool)> = Vec::new();
+    for l in model::limit_liquidities(pool.tick_current_index, pool.sqrt_price, pos.lower, pos.upper) {
+        tries.push(("deposit with a cost just above 2^64 / 2^128", l, true));
+    }
+    tries.push(("deposit of 2^127 + x", (1u128 << 127) + x as u128, true));
+    tries.push(("deposit of 2^128 - x", u128::MAX - x as u128 + 1, true));
+    tries.push(("withdrawal of 2^128 - x", u128::MAX - x as u128 + 1, false));
+    tries.push(("withdrawal of 2^127 + x", (1u128 << 127) + x as u128, false));
+    for (what, l, inc) in tries {
+        let iname = match (inc, v2) {
+            (true, true) => "increase_liquidity_v2",
+            (true, false) => "increase_liquidity",
+            (false, true) => "decrease_liquidity_v2",
+            (false, false) => "decrease_liquidity",
+        };
+        let mut d = crate::wpix::ix_disc(iname).to_vec();
+        d.extend_from_slice(&l.to_le_bytes());
+        let (b0, b1) = if inc { (u64::MAX, u64::MAX) } else { (0u64, 0u64) };
+        d.extend_from_slice(&b0.to_le_bytes());
+        d.extend_from_slice(&b1.to_le_bytes());
+        if v2 {
+            // the original's description of the remaining accounts (transfer-hook slices) follows the three numbers
+            if v.ix.data.len() > 40 {
+                d.extend_from_slice(&v.ix.data[40..]);
+            } else {
+                d.push(0);
+            }
+        }
+        let mut ix2 = v.ix.clone();
+        ix2.data = d;
+        let mut fork = v.post.clone();
+        let r = run1(&mut fork, ix2);
+        cov.probe("integer_limit_liquidity_probes");
+        cov.eval(format!("integer_limit|{}|{}|ok={}", iname, what, r.ok));
+        if r.ok {
+            cov.probe("integer_limit_liquidity_amount_accepted");
+            let mut vs = arithmetic(&fork, &wk, idx);
+            if vs.is_empty() {
+                vs = drain(&fork, &wk, salt, idx, cov);
+            }
+            for mut x in vs {
+                x.detail = format!("after a {} ({} with liquidity amount {}) went through on a copy: {}", what, iname, l, x.detail);
+                out.push(x);
+            }
+            if !out.is_empty() {
+                return out;
+            }
+        }
+    }
+    out
+}
+
 impl Monitor for C01 {
     fn name(&self) -> &'static str {
         "C01"
@@ -397,6 +466,13 @@ impl Monitor for C01 {
             }
             if ev.salt % 7 == 2 {
                 out.extend(lp_round_trip(ev.post, wk, ev.salt, ev.idx, cov));
+            }
+            if ev.salt % 6 == 4 && out.is_empty() {
+                for v in ev.ix_views() {
+                    if v.ix.accounts.iter().any(|m| m.pubkey == *wk) {
+                        out.extend(integer_limit_probe(&v, ev.salt, ev.idx, cov));
+                    }
+                }
             }
             if out.is_empty() && npos > 0 {
                 cov.sample(json!({"after": kind, "pool": wk.to_string(), "positions": npos, "vault_a": token_amount(ev.post, &pool.vault_a), "vault_b": token_amount(ev.post, &pool.vault_b),
